@@ -355,6 +355,17 @@ func genEW(prop, tier string, r *rng, emit func(string)) {
 			}
 		}
 	}
+	if prop == "C07" || prop == "C12" {
+		// destinations of the wrong size (too small, too big) are refused and left as they were
+		for _, dsh := range []string{"3,3", "5", "2", "2,2,2"} {
+			for _, o := range []string{"un:neg:0:reuse.1", "un:abs:0:incr.1", "apply:square:0:reuse.1", "bins:add:0:3:left:reuse.1"} {
+				if prop == "C12" && strings.HasPrefix(o, "bins") {
+					continue
+				}
+				emit(fmt.Sprintf("prog f64 new:rm:2,3:1;new:rm:%s:50;%s", dsh, o))
+			}
+		}
+	}
 	if prop == "C11" {
 		emit("prog f64 new:rm:2,1:1;slice:0:0.2.2;cmp:gt:1:1:same:safe")
 		emit("prog i new:rm:3:1;slice:0:1.2.1;cmp:lte:1:1:same:safe")
